@@ -198,8 +198,10 @@ class ControlFlowTransformer(converter.Base):
     undefined = tuple(v for v in possibly_undefined if not v.is_composite())
 
     # Variables that are modified inside the scope, and depend on values outside
-    # it.
-    input_only = basic_scope_vars & live_in - live_out
+    # it. Names declared global or nonlocal are visible outside the function, so
+    # they always count as outputs.
+    input_only = (basic_scope_vars & live_in - live_out -
+                  fn_scope.globals - fn_scope.nonlocals)
 
     # Place the outputs first, then sort lexicographically.
     scope_vars = sorted(scope_vars, key=lambda v: (v in input_only, v))
